@@ -37,8 +37,9 @@ def x_preempt_renege(spec):
 
 
 def x_exact_low_precision(spec):
-    """F23: with exact=k smaller than the number of digits of the samples, sums are rounded to k digits but `now` is not:
-    a zero/short service can end before it started.  Excluded by raising k to 20 (no rounding of 17-digit float samples)."""
+    """Generator precondition of C20's float-vs-exact comparison (not a finding any more; F23 is fixed): with exact=k below the ~17
+    digits of a float sample every sum is rounded to k digits, so the exact run may differ from the float run by far more than the
+    1e-9 tolerance (and near-ties may be re-ordered).  The comparison is made at k >= 20."""
     if spec.get("exact") and spec["exact"] < 20:
         spec["exact"] = 20
         return True
@@ -215,16 +216,25 @@ def p_sched_preempt_blocked(case, v):
 
 def x_sched_reroute_blocked(spec):
     """F6d: a schedule with preemption='reroute' (or capacitated pre-emptive slots) interrupting a *blocked* customer sends it
-    elsewhere while it stays queued in its old destination's blocked queue.  Excluded by removing finite capacities from networks
-    that contain such a node."""
+    elsewhere while it stays queued in its old destination's blocked queue.  Excluded by removing the finite capacities of the
+    nodes such a node can send customers to."""
     def bad(nd):
         sv = nd["servers"]
         return (sv["kind"] == "schedule" and sv.get("preemption") == "reroute") or (sv["kind"] == "slotted" and sv.get("preemption"))
-    if any(bad(nd) for nd in spec["nodes"]) and any(nd.get("cap", "inf") != "inf" for nd in spec["nodes"]):
-        for nd in spec["nodes"]:
-            nd["cap"] = "inf"
-        return True
-    return False
+    hit = False
+    for i, nd in enumerate(spec["nodes"]):
+        if not bad(nd):
+            continue
+        # only a customer *at* such a node can be the blocked victim: its possible destinations get infinite capacity; other nodes
+        # (e.g. an upstream node blocked towards this one) keep theirs
+        dests = set()
+        for c in spec["classes"]:
+            dests |= set(possible_dests(spec, c["name"], i + 1))
+        for d in dests:
+            if 1 <= d <= len(spec["nodes"]) and spec["nodes"][d - 1].get("cap", "inf") != "inf":
+                spec["nodes"][d - 1]["cap"] = "inf"
+                hit = True
+    return hit
 
 
 def x_sched_preempt_blocked_cc(spec):
@@ -299,6 +309,7 @@ EXCLUSIONS = {
     "jockey_capacity": x_jockey_capacity,
     "preempt_renege": x_preempt_renege,
     "exact_low_precision": x_exact_low_precision,
+    "floatcmp_precision": x_exact_low_precision,
     "sched_preempt_blocked": x_sched_preempt_blocked,
 }
 
